@@ -260,12 +260,21 @@ def jobs_for(pid, rep):
                 p = g.point(t)
                 p["m"] = 1
                 p["tg"][0], p["fd"][0] = (g.r.randrange(6), -2) if tag_only else (-2, g.r.randrange(6))
-                ops.append({"op": "insert", "p": p, "m": concretise.NONE, "compact": 0})
+                # (compact key prefixes: a needless rewrite would re-serialise these rows with the long prefixes - visible in the bytes)
+                ops.append({"op": "insert", "p": p, "m": concretise.NONE, "compact": 1 if i % 4 in (1, 2) else 0})
                 t += 1
             u = {"tk": 0, "tv": 0, "mk": 0, "mv": 0, "tgk": 0, "tgv": [], "fdk": 0, "fdv": [], "utg": [] if tag_only else [1], "ufd": [1] if tag_only else []}
             NOOP = {"k": "meas", "key": 0, "key2": 0, "mf": 0, "op": "noop", "v": 0, "tf": 0}
             ops.append({"op": "update", "q": NOOP, "m": 1, "u": u, "fail": 0, "via": "handle"})
             ops.append({"op": "update_all", "m": 1, "u": u, "fail": 0, "via": "handle"})
+            # setting a key and unsetting it in the same call, on points that do not have it: the steps cancel, nothing changes
+            # (third key: no point of these histories carries it, neither as a tag nor as a field)
+            for p in [a["p"] for a in ops if a["op"] == "insert"]:
+                p["tg"][2], p["fd"][2] = -2, -2
+            u2 = dict(u, utg=[3], ufd=[], tgk=g.r.choice([1, 2]), tgv=[-2, -2, g.r.randrange(6)]) if i % 4 < 2 else \
+                dict(u, utg=[], ufd=[3], fdk=g.r.choice([1, 2]), fdv=[-2, -2, g.r.randrange(6)])
+            ops.append({"op": "update", "q": NOOP, "m": concretise.NONE, "u": u2, "fail": 0})
+            ops.append({"op": "update_all", "m": 1, "u": u2, "fail": 0, "via": "handle"})
             ops.append({"op": "update", "q": NOOP, "m": concretise.NONE, "u": u, "fail": 0})
             ops.append({"op": "update_all", "u": u, "fail": 0})
             ops.append({"op": "all", "m": concretise.NONE, "sorted": 0})
